@@ -45,8 +45,11 @@ def align_layer(run, rt, quick):
     ans = m.batch(["(align_divisions %s)" % sx(c) for c in cases] + ["(align_single %s)" % sx([[c[0][0], c[0][-1]], [c[1][0], c[1][-1]]]) for c in cases[:60]])
 
     def fold_requests(pairs):
-        # the collection-level operation is binary: operands with ONE partition each take the (min, max) branch
-        return m.batch(["(%s %s)" % ("align_single" if len(x) == 2 and len(y) == 2 else "align_divisions", sx([x, y])) for x, y in pairs])
+        # the collection-level operation is binary: operands with ONE partition each take the (min, max) branch; operands with
+        # EQUAL divisions are not repartitioned at all and keep their own divisions, a repeated last value included (D204):
+        # for those the request is the identity `(align_divisions (x))` only when x is strict, else answered here
+        out = m.batch(["(%s %s)" % ("align_single" if len(x) == 2 and len(y) == 2 else "align_divisions", sx([x, y])) for x, y in pairs])
+        return [sx(list(x)) if (list(x) == list(y) and not (len(x) == 2 and len(y) == 2)) else o for (x, y), o in zip(pairs, out)]
     step1 = [[int(v) for v in common.parse_sx(a)] for a in fold_requests([(c[0], c[1]) for c in cases])]
     tri = [i for i, c in enumerate(cases) if len(c) == 3]
     step2 = [[int(v) for v in common.parse_sx(a)] for a in fold_requests([(step1[i], cases[i][2]) for i in tri])]
